@@ -75,7 +75,11 @@ def is_population(term, which):
 
 
 def pckey(o):
-    return tuple((c.key, t) for c, t in o.pc)
+    """Path key up to the helper call: decisions taken AFTER the helper returned (scalar / array post-processing of its result) do not
+    distinguish paths for the purposes of what was handed to the helper."""
+    n = getattr(o, "captured_pclen", None)
+    pc = o.pc if n is None else o.pc[:n]
+    return tuple((c.key, t) for c, t in pc)
 
 
 def structural(ctx, chk, tier):
